@@ -235,6 +235,34 @@ func SheetOf(events []abci.Event) *Sheet {
 	return s
 }
 
+// TransferSheet builds the sheet of only those bank transfers (the bank keeper's "transfer"
+// events: one per send, naming both parties) in which at least one party is in `involving`.
+// It separates one module's movements from those of other modules acting in the same begin
+// or end block; mints and burns are not transfers and are left out.
+func TransferSheet(events []abci.Event, involving map[string]bool) *Sheet {
+	s := NewSheet()
+	for _, ev := range events {
+		if ev.Type != "transfer" {
+			continue
+		}
+		from, _ := attr(ev, "sender")
+		to, _ := attr(ev, "recipient")
+		amt, _ := attr(ev, "amount")
+		if amt == "" || !(involving[from] || involving[to]) {
+			continue
+		}
+		coins, err := sdk.ParseCoinsNormalized(amt)
+		if err != nil {
+			panic(fmt.Sprintf("harness: cannot parse bank event amount %q: %v", amt, err))
+		}
+		for _, c := range coins {
+			s.apply(Move{Kind: "spent", Addr: from, Denom: c.Denom, Amt: c.Amount.BigInt(), Msg: -1})
+			s.apply(Move{Kind: "received", Addr: to, Denom: c.Denom, Amt: c.Amount.BigInt(), Msg: -1})
+		}
+	}
+	return s
+}
+
 // SheetOfMsg builds the sheet of the events of one message of a tx.
 func SheetOfMsg(events []abci.Event, msg int) *Sheet {
 	s := NewSheet()
